@@ -111,8 +111,9 @@ def run(case):
                 if a != b:
                     vio.append({'mech': 'behaves-differently', 'what': f'in context before={ctx[0]!r} after={ctx[1]!r}: original -> {util.short(_nomv(a), 300)}; re-parsed -> {util.short(_nomv(b), 300)}; dumped={T1!r}; {txt}'})
                     break
-    if vio and (f1 or f2) and run(dict(case, fn=[None, None])).get('status') != 'violation':
-        pass            # only the file names make the difference: nothing the recorded finding (flag elision) could explain
+    if vio and f1 != f2 and run(dict(case, fn=[f1, f1])).get('status') != 'violation':
+        pass            # reading the dump back under the original name is fine: only the *other* name makes the difference, nothing
+                        # the recorded finding (flag elision) could explain
     elif vio:
         vio = attribute(vio, T, safe, t1)
     nt = any(tag in T for tag in ('!call', '!bind', '!xref', '!ref', '!eval', '!path', '!include', '!force', '!weak', '!del', '!merge', '!metadata', '!new', '!notnew', '!unsafe'))
